@@ -160,3 +160,38 @@ fn c11_k_proper_point_in_envelopes() {
         _ => assert!(false),
     }
 }
+
+// ---- C03, off the lattice: ill-conditioned literal triples (the naive f64 determinant has the WRONG sign for each
+//      of them; the expected signs were computed with exact rational arithmetic).  The REAL robust::orient2d runs
+//      here (no stub): concrete input, so CBMC executes the adaptive expansion arithmetic by constant folding.
+#[cfg(kani)]
+const HARD_TRIPLES: [(f64, f64, f64, f64, f64, f64, i8); 7] = [
+    (94.78705740730024, 66.35094018511016, 39.488401407353116, 27.64188098514718, 4.838159498444966, 3.3867116489114766, -1),
+    (10.314540687234699, 51.572703436173484, 57.1247270972651, 285.6236354863255, 18.795223968446482, 93.97611984223241, 1),
+    (60.89981231344999, 42.629868619414985, 7.329354737292205, 5.1305483161045435, 51.198163736448436, 35.8387146155139, -1),
+    (2.266067176278301, 1.5862470233948107, 46.174911677113585, 32.322438173979506, 16.81315740686539, 11.769210184805772, -1),
+    (98.46691339965336, 295.4007401989601, 44.0682805637918, 132.2048416913754, 11.00173121699664, 33.00519365098993, -1),
+    (51.63828855104252, 258.1914427552126, 20.529448520087055, 102.64724260043529, 95.20257450059395, 476.0128725029698, -1),
+    (0.5, 2.5, 12.0, 60.0, 24.0, 120.0, 0),
+];
+
+#[cfg(kani)]
+fn body_hard_triple(k: usize) {
+    let t = HARD_TRIPLES[k];
+    let (p, q, r) = (Coord { x: t.0, y: t.1 }, Coord { x: t.2, y: t.3 }, Coord { x: t.4, y: t.5 });
+    let o = <f64 as GeoNum>::Ker::orient2d(p, q, r);
+    assert!(match o { Orientation::CounterClockwise => t.6 == 1, Orientation::Clockwise => t.6 == -1, Orientation::Collinear => t.6 == 0 });
+    // the same decision through the public predicates: point-on-segment, ring winding order
+    use crate::winding_order::{Winding, WindingOrder};
+    let ring = LineString(vec![p, q, r, p]);
+    let w = ring.winding_order();
+    assert!(match w { Some(WindingOrder::CounterClockwise) => t.6 == 1, Some(WindingOrder::Clockwise) => t.6 == -1, None => t.6 == 0 });
+}
+#[cfg(kani)] #[kani::proof] #[kani::unwind(40)]
+fn c03_k_hard_triple_0() { body_hard_triple(0); }
+#[cfg(kani)] #[kani::proof] #[kani::unwind(40)]
+fn c03_k_hard_triple_1() { body_hard_triple(1); }
+#[cfg(kani)] #[kani::proof] #[kani::unwind(40)]
+fn c03_k_hard_triple_4() { body_hard_triple(4); }
+#[cfg(kani)] #[kani::proof] #[kani::unwind(40)]
+fn c03_k_hard_triple_collinear() { body_hard_triple(6); }
